@@ -84,6 +84,11 @@ let () =
          let mn = flatG false t and fl = flatG true t in
          Printf.printf "MIN %s\nFULL %s\nNORM %s\nSELF %d\nREFMIN %s\n" (String.concat " " (List.map tok_s mn)) (String.concat " " (List.map tok_s fl))
            (kt (norm t)) (if parseG mn = Some t && parseG fl = Some t then 1 else 0) (String.concat " " (List.map tok_s (flatR false t)))
+       | 'Q' ->
+         let t = tree (parse_sx body) in
+         let pt = pprint t in
+         Printf.printf "PRINT %s\nCOVERED %d\nPSELF %d\nNORM %s\n" (String.concat " " (List.map tok_s pt))
+           (if covered t then 1 else 0) (if parseG pt = Some t then 1 else 0) (kt (norm t))
        | 'P' ->
          let ts = List.map tok_of (List.filter (fun x -> x <> "") (String.split_on_char ' ' body)) in
          (match parseG ts with Some t -> Printf.printf "TREE %s\n" (kt (norm t)) | None -> print_string "REJECT\n")
